@@ -96,7 +96,7 @@ Section Reader.
     end.
 
   Definition setup_arch (fidx pos cpus : N) : res N :=
-    if cpus =? 0 then Err ERR_UNMODELLED           (* sz /= 0 *)
+    if cpus =? 0 then Err ERR_CORRUPT              (* "Invalid number of CPUs" *)
     else
       let sz := get32 false (rd fidx pos 4) 0 / cpus in
       if sz <? CPU_STATE_SIZE then Err ERR_NOTIMPL
@@ -122,10 +122,11 @@ Section Reader.
     : res (N * list (option bytes)) :=
     let hdr_blocks := get32 false (rd fidx hdr_pos 4) 0 in
     let act_size := hdr_blocks * block_size in
+    if act_size <? 16 then Err ERR_CORRUPT else                    (* sizeof *sdsh *)
     let hdr := rd fidx hdr_pos act_size in
     let disk_num := get32 false hdr 4 in
     if negb (disk_num =? nfiles) then Err ERR_INVALID
-    else if act_size <? 8 + disk_num * 32 then Err ERR_CORRUPT     (* sizeof sdsh: a pointer *)
+    else if act_size <? 16 + disk_num * 32 then Err ERR_CORRUPT
     else
       match vol_loop (N.to_nat disk_num) 0 hdr (pa_vol a) (pa_seen a) with
       | Err e => Err e
